@@ -97,3 +97,13 @@ func VV(m MaybeFloat) Float {
 //@   props C04
 //@   nopanic
 //@   inline
+
+// property names are read from generated name tables
+//@ func (KnownProp).String
+//@   props C08
+//@   pure
+//@   trusted "reads the generated table of property names"
+//@ func (Shortand).String
+//@   props C08
+//@   pure
+//@   trusted "reads the generated table of shorthand names"
